@@ -346,6 +346,13 @@ impl<'t, 'a> Gen<'t, 'a> {
             Ty::Record(fs) => Tm::Record(
                 fs.iter()
                     .map(|(n, t)| {
+                        // a scalar variable in scope that has the field's name and type is often
+                        // used for the field: printed with the `{ x }` shorthand
+                        let scalar = matches!(t, Ty::Int | Ty::Float | Ty::Byte | Ty::Char | Ty::Str | Ty::Bool | Ty::Unit);
+                        let same = sc.iter().rev().find(|v| v.name == *n).map(|v| v.ty == *t).unwrap_or(false);
+                        if scalar && same && self.t.chance(2, 3) {
+                            return (n.clone(), Tm::Var(n.clone()));
+                        }
                         let e = self.inl(t, sc, sub / fs.len().max(1));
                         (n.clone(), self.guard_field(e, t))
                     })
@@ -1053,6 +1060,44 @@ impl<'t, 'a> Gen<'t, 'a> {
         if size == 0 || self.t.exhausted() {
             return self.leaf_or_var(goal, sc);
         }
+        // a record whose scalar fields are bound first and then mentioned with the `{ x }` shorthand
+        if self.block {
+            if let Ty::Record(fs) = goal {
+                let scalars: Vec<(String, Ty)> = fs
+                    .iter()
+                    .filter(|(_, t)| matches!(t, Ty::Int | Ty::Float | Ty::Byte | Ty::Char | Ty::Str | Ty::Bool))
+                    .cloned()
+                    .collect();
+                if !scalars.is_empty() && self.t.chance(1, 4) {
+                    let mut sc2 = sc.clone();
+                    let mut binds = vec![];
+                    for (n, t) in &scalars {
+                        if self.t.chance(2, 3) {
+                            let rhs = self.inl(t, &sc2, size / 4);
+                            binds.push((n.clone(), t.clone(), rhs));
+                            sc2.push(SVar { name: n.clone(), ty: t.clone() });
+                        }
+                    }
+                    let fields: Vec<(String, Tm)> = fs
+                        .clone()
+                        .iter()
+                        .map(|(n, t)| {
+                            if binds.iter().any(|(b, _, _)| b == n) {
+                                (n.clone(), Tm::Var(n.clone()))
+                            } else {
+                                let e = self.inl(t, &sc2, size / 4);
+                                (n.clone(), self.guard_field(e, t))
+                            }
+                        })
+                        .collect();
+                    let mut out = Tm::Record(fields);
+                    for (n, t, rhs) in binds.into_iter().rev() {
+                        out = Tm::Let(Box::new(FunBind { name: n, params: vec![], ty: Some(t), body: rhs }), Box::new(out));
+                    }
+                    return out;
+                }
+            }
+        }
         // weighted productions; index 0 is the simplest
         let mut prods: Vec<(u32, u8)> = vec![(3, 0)];
         let composite = matches!(
@@ -1652,6 +1697,9 @@ pub fn features(p: &Program) -> BTreeSet<String> {
                     f.insert("record_ge5".into());
                 }
                 f.insert("record".into());
+                if fs.iter().any(|(n, x)| matches!(x, Tm::Var(v) if v == n)) {
+                    f.insert("record_field_shorthand".into());
+                }
                 for (_, x) in fs {
                     go(x, f, arity, in_fun)
                 }
